@@ -117,7 +117,8 @@ class UpdateComponents(FnContract):
         shape = z3.Const('data_shape', z3.DeclareSort('ShapeV'))
         comps, keys, arrays, oks = [], [], [], []
         for i in range(n):
-            c = PObj('Component', fields={'_data': z3.Const('old_values_%d' % i, z3.DeclareSort('ArrV'))})
+            c = PObj('Component', fields={'_data': z3.Const('old_values_%d' % i, z3.DeclareSort('ArrV')), 'i': i})
+            c.methods['data'] = ('__property__', lambda I, self_: self_.fields['_data'])
             c.methods['_data.setter'] = (lambda I, self_, v, i=i: (events.append(('write', i)), self_.fields.__setitem__('_data', v))[1])
             comps.append(c)
             ok = z3.Bool('shape_ok_%d' % i)
@@ -146,10 +147,27 @@ class UpdateComponents(FnContract):
         def asarray(I, a):
             return a
 
+        def which(a, b):
+            for x in (a, b):
+                if isinstance(x, PObj) and x.cls == 'ndarray':
+                    return x.fields['i']
+            raise Unsupported("comparison of unknown arrays")
+
+        # a new array may be the very buffer the component already holds (edited in place by the caller): comparing the two then says
+        # 'equal' whatever happened to the values since the masks were computed
+        def array_equal(I, a, b, **kw):
+            i = which(a, b)
+            return S.Or(z3.Bool('same_buffer_%d' % i), z3.Bool('values_equal_%d' % i))
+
+        def shares(I, a, b, **kw):
+            return z3.Bool('same_buffer_%d' % which(a, b))
+
         def msg(I, sender, components_changed=None):
             return PObj('NumericalDataChangedMessage', fields={'sender': sender, 'components_changed': components_changed})
         return {'isinstance': Builtin('isinstance', b_isinstance), 'ComponentID': PType('ComponentID'),
-                'numpy.asarray': Builtin('np.asarray', asarray),
+                'numpy.asarray': Builtin('np.asarray', asarray), 'numpy.array_equal': Builtin('np.array_equal', array_equal),
+                'numpy.shares_memory': Builtin('np.shares_memory', shares), 'numpy.may_share_memory': Builtin('np.may_share_memory', shares),
+                'numpy.allclose': Builtin('np.allclose', array_equal), 'numpy.array_equiv': Builtin('np.array_equiv', array_equal),
                 '_clear_subset_state_caches': Builtin('_clear', lambda I: st.events.append(('clear',))),
                 'NumericalDataChangedMessage': Builtin('NumericalDataChangedMessage', msg)}
 
@@ -163,19 +181,31 @@ class UpdateComponents(FnContract):
             P.check(qn + "/raises:rejected-update-changes-nothing", 'write' not in kinds and 'broadcast' not in kinds)
             return
         P.check(qn + "/ensures:all-arrays-had-the-right-shape", S.And(*st.oks))
-        P.check(qn + "/ensures:every-component-replaced-once", sorted(e[1] for e in ev if e[0] == 'write') == list(range(st.n)))
-        P.check(qn + "/ensures:values-stored", all(c.fields['_data'] is a for c, a in zip(st.comps, st.arrays)))
-        P.check(qn + "/ensures:caches-cleared-after-the-last-write", 'clear' in kinds and
-                max([i for i, k in enumerate(kinds) if k == 'write'] + [-1]) < max(i for i, k in enumerate(kinds) if k == 'clear'))
+        # Whether component i has to be touched at all: not when the new array is a different buffer holding equal values (then nothing
+        # observable changes); the same buffer handed in again is already in place but the masks computed from its earlier contents are
+        # not valid any more.  (The unchanged code replaces, clears and notifies unconditionally, which satisfies all of this.)
+        same = [z3.Bool('same_buffer_%d' % i) for i in range(st.n)]
+        equal = [z3.Bool('values_equal_%d' % i) for i in range(st.n)]
+        writes = [e[1] for e in ev if e[0] == 'write']
+        P.check(qn + "/ensures:no-component-replaced-twice", len(writes) == len(set(writes)))
+        for i, (c, a) in enumerate(zip(st.comps, st.arrays)):
+            P.check(qn + "/ensures:values-stored(%d)" % i, True if c.fields['_data'] is a else S.Or(same[i], equal[i]))
+        changed = S.Or(*[S.Or(same[i], S.Not(equal[i])) for i in range(st.n)])
+        cleared = 'clear' in kinds and max([i for i, k in enumerate(kinds) if k == 'write'] + [-1]) < max(i for i, k in enumerate(kinds) if k == 'clear')
+        P.check(qn + "/ensures:caches-cleared-after-the-last-write", True if cleared else S.Not(changed))
+        if 'write' in kinds:
+            P.check(qn + "/ensures:no-write-without-clearing-the-caches", cleared)
         if cfg['hub']:
-            P.check(qn + "/ensures:listeners-notified-once-after-the-caches-are-cleared",
-                    kinds.count('broadcast') == 1 and 'clear' in kinds and kinds.index('clear') < kinds.index('broadcast'))
+            notified = kinds.count('broadcast') == 1 and 'clear' in kinds and kinds.index('clear') < kinds.index('broadcast')
+            P.check(qn + "/ensures:listeners-notified-once-after-the-caches-are-cleared", True if notified else (S.Not(changed) if 'broadcast' not in kinds else False))
             m = [e[1] for e in ev if e[0] == 'broadcast']
             if m:
                 cc = m[0].fields['components_changed']
                 items = cc.items if isinstance(cc, PList) else []
+                named = [any(x is k for x in items) for k in st.keys]
                 P.check(qn + "/ensures:message-names-the-dataset-and-the-changed-components",
-                        m[0].fields['sender'] is st.data and len(items) == st.n and all(x is y for x, y in zip(items, st.keys)))
+                        S.And(m[0].fields['sender'] is st.data, all(any(x is k for k in st.keys) for x in items),
+                              *[True if named[i] else S.And(S.Not(same[i]), equal[i]) for i in range(st.n)]))
         else:
             P.check(qn + "/ensures:no-hub-no-notification", 'broadcast' not in kinds)
 
